@@ -127,21 +127,17 @@ def run(ctx) -> None:
     ctx.check(okb, RC, "InotifyEmitter.on_thread_start", "the reader is not created on os.fsencode(self.watch.path): native paths would not be bytes", ots.loc)
 
     # ---- ObservedWatch / polling
-    ow = P.find_method("ObservedWatch", "__init__")
-    okw, seenw = True, set()
-    for p in en.run(ow):
-        st = [e for e in p.evs if e.kind == "store" and e.extra.get("attr") == "_path"]
-        isp = p.conds().get("isinstance(path, Path)")
-        if len(st) != 1 or isp is None:
-            okw = False
-            continue
-        seenw.add(isp)
-        v = st[0].extra.get("value")
-        if isp and v != "str(path)":
-            okw = False
-        if not isp and v != "path":
-            okw = False
-    ctx.check(okw and seenw == {True, False}, RP, "ObservedWatch.__init__ path normalisation", "pathlib.Path is not turned into str / other types are changed", ow.loc)
+    from ..watchpath import NORMALISERS, key_path_component, path_model
+
+    wpm = path_model(P)
+    ow = wpm["init"]
+    ctx.check(
+        wpm["public_normalised"] and wpm["type_preserving"],
+        RP,
+        "ObservedWatch.__init__ path normalisation",
+        f"pathlib.Path is not turned into str / other types are changed: stored {wpm['stored_cases']}, `path` returns {wpm['getter']}",
+        ow.loc,
+    )
     okwalk, wkloc = walk_builds_paths_from_root(P)
     ctx.check(okwalk, RP, "DirectorySnapshot.walk builds paths from the root as given", "snapshot paths are not all join(root, entry.name) over the entries of listdir(root)", wkloc)
     pe = P.cls("PollingEmitter")
@@ -188,14 +184,11 @@ def run(ctx) -> None:
     rets = [n.value for n in ast.walk(kf.node) if isinstance(n, ast.Return) and n.value is not None]
     if not rets or not isinstance(rets[0], ast.Tuple) or not rets[0].elts:
         raise AnalysisError("anchor vanished: ObservedWatch.key does not return a tuple")
-    comp = origins(kf.node, rets[0].elts[0])
-    okk = all(b in ("self.path", "self._path") and not w for b, w in comp)
-    ctx.check(okk, RK, "ObservedWatch.key path component", f"the key's path component is {sorted((b, list(w)) for b, w in comp)}: two spellings of one directory that differ only in type (str / bytes) become one watch, the second caller is served by the first caller's emitter and receives paths of the other type", kf.loc)
-    prets = [n.value for n in ast.walk(pf.node) if isinstance(n, ast.Return) and n.value is not None]
-    po = set()
-    for r in prets:
-        po |= origins(pf.node, r)
-    ctx.check(bool(prets) and all(b == "self._path" and not w for b, w in po), RK, "ObservedWatch.path returns the stored path", f"`path` returns {sorted((b, list(w)) for b, w in po)}", pf.loc)
+    kpc = key_path_component(P)
+    comp = kpc["component"]
+    okk = kpc["only_field"]
+    ctx.check(okk, RK, "ObservedWatch.key path component", f"the key's path component is {comp}: two spellings of one directory that differ only in type (str / bytes) become one watch, the second caller is served by the first caller's emitter and receives paths of the other type", kf.loc)
+    ctx.check(wpm["getter_ok"], RK, "ObservedWatch.path returns the stored path", f"`path` returns {wpm['getter']}", pf.loc)
 
     # ---- synthetic events name the walked entry itself (shared instances with C14)
     RSY = ctx.rule(
@@ -245,6 +238,7 @@ def run(ctx) -> None:
 IN = "observers/inotify.py"
 API = "observers/api.py"
 VARIANTS = [
+    dict(name="E path normalised when read (os.fspath in the getter), key through the property", expect="silent", edits=[(API, "import contextlib\n", "import contextlib\nimport os\n"), (API, "        self._path = str(path) if isinstance(path, Path) else path\n", "        self._path = path\n"), (API, '        """The path that this watch monitors."""\n        return self._path\n', '        """The path that this watch monitors."""\n        return os.fspath(self._path)\n')]),
     dict(name="B synthetic moved source by substring replacement", expect="fire", rule="C19/synthetic-paths-name-the-entry", edits=[("events.py", 'renamed_path = src_dir_path + full_path[len(dest_dir_path) :] if src_dir_path else ""', 'renamed_path = full_path.replace(dest_dir_path, src_dir_path) if src_dir_path else ""')]),
     dict(name="B synthetic path formatted into a str", expect="fire", rule="C19/synthetic-paths-name-the-entry", edits=[("events.py", "            full_path = os.path.join(root, directory)  # type: ignore[call-overload]\n            yield DirCreatedEvent(full_path, is_synthetic=True)", "            full_path = f\"{root}{os.sep}{directory}\"\n            yield DirCreatedEvent(full_path, is_synthetic=True)")]),
     dict(name="B watch key decodes the path", expect="fire", rule="C19/watch-identity-separates-path-types", edits=[(API, "        return self.path, self.is_recursive, self.event_filter", "        return os.fsdecode(self.path), self.is_recursive, self.event_filter"), (API, "import queue\n", "import os\nimport queue\n")]),
